@@ -371,6 +371,111 @@ theorem partial_update_counterexample :
       (out.next.bind fun o' => (arithO Discipline.current .add o' (.bare true [.int 1])).toOption.map (·.ps)) = some [10^9, 5 + 10^9])) := by
   decide
 
+/-! ### round 4 (class "L3, sharper"): the comparison FORM of every flag / optional-parameter test is generated and pinned -/
+open Nitime.C01Attr in
+/-- GENERATED table, pinned (`decide`): the form under which the no-copy branch is taken, the tests of `TimeArray.__new__`
+literally, and — literally, in source order — EVERY test in the constructors and methods of the six time classes whose form is
+not an identity test with `None`.  A lint-style rewrite (`copy == False` → `not copy`, `t0 is None` → `not t0`) changes the
+generated fact and re-opens this obligation; a NEW `is None` test of a new optional parameter does not. -/
+theorem generated_flag_forms_pinned :
+    Generated.C01Ctor.copyTest = .eqFalse ∧
+    Generated.C01Ctor.flagTests.filter (fun t => t.fn == "TimeArray.__new__") =
+      [⟨"TimeArray.__new__", "time_unit", .isNone⟩, ⟨"TimeArray.__new__", "copy", .eqFalse⟩,
+       ⟨"TimeArray.__new__", "time_unit", .isNone⟩] ∧
+    Generated.C01Ctor.flagTests.filter (fun t => !(t.form == .isNone || t.form == .isNotNone)) =
+      [⟨"TimeArray.__new__", "copy", .eqFalse⟩, ⟨"UniformTime.index_at", "boolean", .truthy⟩,
+       ⟨"Frequency.__new__", "isinstance(f,Frequency)", .eqFalse⟩, ⟨"Events.__init__", "indices", .truthy⟩,
+       ⟨"Events.__init__", "indices", .truthy⟩] ∧
+    Generated.C01Ctor.flagTests.length ≥ 50 := by
+  decide
+
+open Nitime.C01Attr in
+/-- what the pinned table MEANS: optional parameters (default `None`) are tested by identity with `None` only — so `0`, `0.0`,
+`''`, `[]`, `np.False_` are VALUES, never "not given"; the only other forms are `copy == False`, `isinstance(f, Frequency) == False`
+(a plain boolean) and truthiness of the documented booleans `boolean` (index_at) and of `indices` (a list or `None`) -/
+theorem generated_flag_forms_documented :
+    Generated.C01Ctor.flagTests.all (fun t =>
+      t.form == .isNone || t.form == .isNotNone ||
+      (t.fn == "TimeArray.__new__" && t.param == "copy" && t.form == .eqFalse) ||
+      (t.fn == "Frequency.__new__" && t.param == "isinstance(f,Frequency)" && t.form == .eqFalse) ||
+      (t.fn == "UniformTime.index_at" && t.param == "boolean" && t.form == .truthy) ||
+      (t.fn == "Events.__init__" && t.param == "indices" && t.form == .truthy)) = true := by
+  decide
+
+open Nitime.C01Attr in
+/-- the NO-COPY branch of today's constructor is taken exactly for the flag values that ARE EQUAL to `False`
+(`False`, `0`, `0.0`, `np.False_` / `np.bool_(0)`); `None`, `''`, `[]`, `True`, `1`, `'False'`, `np.True_` convert -/
+theorem copy_flag_meaning (v : FlagVal) :
+    Generated.C01Ctor.copyTest.holds v = v.eqFalse ∧
+    (v.eqFalse = true ↔ v ∈ [FlagVal.pyFalse, .int0, .float0, .npFalse]) := by
+  rw [generated_flag_forms_pinned.1]
+  cases v <;> decide
+
+open Nitime.C01Attr in
+/-- the VALUE clause for every raw flag value: unless the flag equals `False`, `TimeArray(data, u, copy=v)` IS the value
+model's constructor (`ctorNums`: integers exact, floats nearest — `toPs_int_exact`, `toPs_flt_near` apply), whatever the
+dtype; a flag equal to `False` takes int64 data as base units (payload unchanged) and refuses anything else; a time object
+keeps its instant under every flag; label = requested unit (default s / the source's) and factor = factor of the label always -/
+theorem ctor_flag_value_exact (v : FlagVal) (u : Option TimeUnit) :
+    (∀ int64 sc xs, v.eqFalse = false →
+      ctorFlagCurrent v u (.nums int64 sc xs) = .ok (TObj.ofTVal (ctorNums u sc xs))) ∧
+    (∀ sc xs, v.eqFalse = true →
+      ctorFlagCurrent v u (.nums true sc xs) = .ok ⟨xs.map Num.raw, sc, ⟨u.getD .s, factor (u.getD .s)⟩⟩ ∧
+      ctorFlagCurrent v u (.nums false sc xs) = .error .valueError) ∧
+    (∀ t, ctorFlagCurrent v u (.time t) = .ok (TObj.ofTVal (ctorFrom u t))) ∧
+    (∀ d o, ctorFlagCurrent v u d = .ok o → o.attrs.fac = factor o.attrs.label) := by
+  have hm := (copy_flag_meaning v).1
+  refine ⟨?_, ?_, ?_, ?_⟩
+  · intro int64 sc xs h
+    simp [ctorFlagCurrent, ctorFlag, hm, h]
+  · intro sc xs h
+    simp [ctorFlagCurrent, ctorFlag, hm, h, TObj.ofTVal]
+  · intro t; rfl
+  · intro d o h
+    cases d with
+    | time t => simp [ctorFlagCurrent, ctorFlag] at h; subst h; rfl
+    | nums int64 sc xs =>
+      simp only [ctorFlagCurrent, ctorFlag] at h
+      split at h
+      · split at h
+        · simp at h; subst h; rfl
+        · simp at h
+      · simp at h; subst h; rfl
+
+open Nitime.C01Attr in
+/-- COUNTEREXAMPLE (the lint rewrite `if not copy:`): the truthiness form agrees with `== False` on `True`, `False`, `0`,
+`0.0`, `1`, `np.False_`, `np.True_`, `'False'` — all the suite and ordinary callers use — and differs exactly on `None`, `''`,
+`[]`: `TimeArray(np.array([3]), 's', copy=None)` is then 3 PICOSECONDS labelled seconds (today: 3·10¹² ps), and a python int
+or a list is refused -/
+theorem truthiness_flag_counterexample :
+    (∀ v : FlagVal, FlagForm.notTruthy.holds v ≠ FlagForm.eqFalse.holds v ↔ v ∈ [FlagVal.pyNone, .emptyStr, .emptyList]) ∧
+    (ctorFlag .notTruthy .pyNone (some .s) (.nums true false [.int 3])).toOption.map (fun o => (o.ps, o.attrs.label)) = some ([3], .s) ∧
+    (ctorFlagCurrent .pyNone (some .s) (.nums true false [.int 3])).toOption.map (fun o => (o.ps, o.attrs.label)) = some ([3 * 10^12], .s) ∧
+    (ctorFlag .notTruthy .emptyList (some .ms) (.nums false true [.int 3])).toOption = none ∧
+    (ctorFlagCurrent .emptyList (some .ms) (.nums false true [.int 3])).toOption.map (·.ps) = some [3 * 10^9] := by
+  refine ⟨?_, by decide, by decide, by decide, by decide⟩
+  intro v; cases v <;> decide
+
+open Nitime.C01Attr in
+/-- for EVERY parameter of the six time classes whose tests are identity tests with `None` (all optional parameters today:
+`generated_flag_forms_documented`), EVERY value other than `None` — `0`, `0.0`, `False`, `''`, `[]`, `np.False_`, `1`, `'False'` … —
+is read as GIVEN by all of its tests together, and `None` as not given; `boolean` / `indices` (truthiness) are given iff truthy -/
+theorem optional_params_given_iff_not_none (v : FlagVal) :
+    (∀ t ∈ Generated.C01Ctor.flagTests, (t.form = .isNone ∨ t.form = .isNotNone) →
+      paramGiven t.fn t.param v = some (v != .pyNone)) ∧
+    (∀ t ∈ Generated.C01Ctor.flagTests, t.form = .truthy → paramGiven t.fn t.param v = some v.truthy) := by
+  cases v <;> decide
+
+open Nitime.C01Attr in
+/-- COUNTEREXAMPLE: rewrite ONE of the two `t0 is None` tests of a constructor as `not t0` and the explicit start `0` / `0.0` /
+`False` / `np.False_` is read as given by one test and as left out by the other; `1` and `None` are read as before -/
+theorem mixed_forms_counterexample :
+    let tests : List FlagTest := [⟨"C.__init__", "t0", .isNone⟩, ⟨"C.__init__", "t0", .notTruthy⟩]
+    (∀ v ∈ [FlagVal.int0, .float0, .pyFalse, .npFalse, .emptyStr, .emptyList], paramGivenIn tests "C.__init__" "t0" v = none) ∧
+    (∀ v ∈ [FlagVal.int1, .pyTrue, .npTrue, .strFalse], paramGivenIn tests "C.__init__" "t0" v = some true) ∧
+    paramGivenIn tests "C.__init__" "t0" .pyNone = some false := by
+  decide
+
 /-! non-vacuity: concrete non-trivial states meeting the hypotheses -/
 example : toPs .m (.flt (11/5)) = 132000000000000 := by decide +kernel
 example : toPs .s (.int 3) = toPs .ms (.int 3000) := (unit_ladder 3).1 ▸ rfl
@@ -387,5 +492,9 @@ example : (runX Discipline.current FailDiscipline.current (TObj.ofTVal ⟨[1, 2]
     [.bad (.conv .bogus), .bad (.wrap .bogus), .ok (.conv .us), .bad (.call "max"), .ok (.view (.item 1))]).1 =
     ["T:ms:0:1,2~1000000000", "T:ms:0:1,2~1000000000", "T:ms:0:1,2~1000000000", "T:us:0:1,2~1000000", "T:us:0:1,2~1000000",
      "T:us:1:2~1000000"] := by decide
+
+example : (Nitime.C01Attr.FlagVal.pyNone).eqFalse = false ∧ (Nitime.C01Attr.FlagVal.float0).eqFalse = true := by decide
+example : (ctorFlagCurrent .float0 (some .ms) (.nums true false [.int 3, .int 4])).toOption.map (fun o => (o.ps, o.attrs.fac)) =
+    some ([3, 4], 10^9) := by decide
 
 end Nitime.C01.Props
